@@ -33,6 +33,8 @@ def run(ctx, rep):
         if p:
             roots.append(p)
     seen, n_sites, _ = CR.run_census(fx, rep, "C06.1", roots, dict(a_size=False))
+    import recursion as RC
+    RC.check_recursion(fx, rep, "C06.rec", seen)
     rep.floor("C06.1", n_sites, 3, "census sites on the parser paths (counted: bytes[0], 3x split_at, bytes[pos..], pos+1; a refactor may legitimately remove some)")
     n_loops = R12.check_loops(fx, rep, "C06.1.loops", seen)
     import api_rules as AR
